@@ -4,7 +4,7 @@ import copy
 import io
 import os
 
-from sim import core, fakes, fsseam, install, world
+from sim import core, fakes, fsseam, gen, install, world
 from sim.core import substream
 from sim.install import CTX
 
@@ -25,7 +25,7 @@ COMPONENTS = {
 }
 ASSUMPTIONS = ['no name is a directory prefix of another; no ".", ".." or empty segments', 'the fakes encode my reading of the S3 / B2 documentation']
 PROBES = ['list_multi_page_s3', 'list_multi_page_b2', 'download_missing', 'overwrite', 'delete_missing', 'spelling_relative', 'spelling_dot',
-          'concurrent_reader', 'concurrent_writer', 'name_nonascii', 'name_special', 'name_tmp_suffix', 'name_near_255_bytes']
+          'concurrent_reader', 'concurrent_writer', 'name_nonascii', 'name_special', 'name_tmp_suffix', 'name_near_255_bytes', 'stream_short_reads']
 TIERS = {'quick': {'budget_s': 60, 'batch': 10}, 'thorough': {'budget_s': 900, 'batch': 20}}
 
 ALPH = ['abcdefghijklmnopqrstuvwxyz0123456789', 'AB-_.~', ' !$&\'()*+,;=:@', '%?#[]{}|^`"<>\\', 'äßñ日本한😀']
@@ -224,6 +224,9 @@ def run_case(case):
                                 CTX.s.block_until(lambda: reader['task'].state == core.DONE, what='reader')
                         elif kind == 'upload_stream':
                             stream = io.BytesIO(data)
+                            if substream(case['sched_seed'], f'short{i}').random() < 0.4:
+                                stream = gen.ShortReads(data, substream(case['sched_seed'], f'short-reads{i}'))
+                                probes['stream_short_reads'] = 1
                             rival = None
                             if op.get('rival') and bname == 'local':
                                 rival = _start_rival(b.b, op['name'], payload_rng.randbytes(max(1, op['size'] // 2 + 3)), op['chunk'], res_holder)
